@@ -112,6 +112,13 @@ def build_histories(seed, n_p, n_m):
             else:
                 calls.append(dict(cfg=cfg, mode="pool", W=int(rng.integers(1, 5)), sleep=int(rng.integers(0, 1000))))
         hs.append(dict(hid=len(hs), m=False, calls=calls))
+    # magnitude boundaries: grids with more than 127 / 255 cells, datasets with more than 127 / 255 items, long solutions
+    big = [dict(name="big0", grid_n=12, n_mazes=130, ctor="gen_dfs", ctor_kwargs={}, seed=3, endpoint_kwargs={}),
+           dict(name="big1", grid_n=16, n_mazes=20, ctor="gen_dfs", ctor_kwargs={"accessible_cells": 200}, seed=4, endpoint_kwargs={"deadend_start": True, "deadend_end": True, "endpoints_not_equal": True}),
+           dict(name="big2", grid_n=13, n_mazes=260, ctor="gen_dfs_percolation", ctor_kwargs={"p": 0.1}, seed=5, endpoint_kwargs={}),
+           dict(name="big3", grid_n=20, n_mazes=6, ctor="gen_wilson", ctor_kwargs={}, seed=6, endpoint_kwargs={"endpoints_not_equal": True, "allowed_start": [[19, 19], [0, 0]]})]
+    for j, cfg in enumerate(big if n_p >= 1000 else big[: 2 + seed % 2] + big[3:]):
+        hs.append(dict(hid=len(hs), m=False, calls=[dict(cfg=cfg, mode="serial" if j % 2 == 0 else "pool", W=3, sleep=0)]))
     return hs
 
 
